@@ -139,6 +139,10 @@ pub struct Case {
     /// (unused server events, unused client events) registered before the measured ones, 0..=3 each
     #[serde(default)]
     pub layout: (u8, u8),
+    /// messages exchanged in each direction before the batches (60 per frame, lock-step): a long-lived connection
+    /// (per-connection counters of the transport far beyond what a short test reaches)
+    #[serde(default)]
+    pub preload: u32,
 }
 
 pub fn run(c: &Case) -> Outcome {
@@ -184,6 +188,60 @@ pub fn run(c: &Case) -> Outcome {
         for c in &clients {
             let port = c.world().resource::<ExampleClient>().local_addr().map(|a| a.port() as u64).unwrap_or(0);
             ids.push(pairs.iter().find(|p| p.1 == port).map(|p| p.0).unwrap_or(Entity::PLACEHOLDER));
+        }
+    }
+    if c.preload > 0 {
+        let pre = (c.preload as usize).min(70_000);
+        for down in [true, false] {
+            let mut sent = 0usize;
+            while sent < pre {
+                for _ in 0..60.min(pre - sent) {
+                    seq += 1;
+                    sent += 1;
+                    if down {
+                        server.world_mut().send_event(ToClients { mode: SendMode::Broadcast, event: SA(seq, Vec::new()) });
+                    } else {
+                        clients[0].world_mut().send_event(CA(seq, Vec::new()));
+                    }
+                }
+                server.update();
+                for client in &mut clients {
+                    client.update();
+                }
+                if !down {
+                    server.update();
+                }
+            }
+            let t1 = Instant::now();
+            loop {
+                let done = if down { clients.iter().all(|c| c.world().resource::<Got>().0.len() >= pre) } else { server.world().resource::<GotUp>().0.len() >= pre };
+                if done {
+                    break;
+                }
+                if t1.elapsed() > Duration::from_secs(5) {
+                    return Outcome::failed(Fail::new("C17.lost", format!("{} of the {pre} messages of the warm-up phase never arrived", if down { "server->client: some" } else { "client->server: some" })));
+                }
+                server.update();
+                for client in &mut clients {
+                    client.update();
+                }
+                std::thread::sleep(Duration::from_micros(200));
+            }
+            // the warm-up traffic is held to the same standard
+            for (r, client) in clients.iter().enumerate() {
+                let seqs: Vec<u32> = if down { client.world().resource::<Got>().0.iter().map(|g| g.1).collect() } else { server.world().resource::<GotUp>().0.iter().map(|g| g.1).collect() };
+                if seqs.windows(2).any(|w| w[0] >= w[1]) || seqs.len() != pre {
+                    let bad = seqs.windows(2).position(|w| w[0] >= w[1]).unwrap_or(0);
+                    return Outcome::failed(Fail::new("C17.order", format!("warm-up phase, {} (receiver {r}): {} messages, first disorder at position {bad}: {:?}", if down { "server->client" } else { "client->server" }, seqs.len(), &seqs[bad.saturating_sub(2)..(bad + 3).min(seqs.len())])));
+                }
+                if !down {
+                    break;
+                }
+            }
+            for client in &mut clients {
+                client.world_mut().resource_mut::<Got>().0.clear();
+            }
+            server.world_mut().resource_mut::<GotUp>().0.clear();
         }
     }
     for b in &c.batches {
@@ -350,7 +408,13 @@ fn case_strategy() -> impl Strategy<Value = Case> {
     let batch = (any::<bool>(), 0u8..3, proptest::collection::vec((0u8..3, size), 1..48), prop_oneof![2 => Just(1u8), 1 => 2u8..=4], proptest::option::weighted(0.12, 0u8..3))
         .prop_map(|(down, from, msgs, frames, poison)| Batch { down, from, msgs, frames, poison });
     let layout = prop_oneof![2 => Just((0u8, 0u8)), 3 => (0u8..=3, 0u8..=3)];
-    (1u8..=3, proptest::collection::vec(batch, 1..4), layout).prop_map(|(clients, batches, layout)| Case { clients, batches, layout })
+    (1u8..=3, proptest::collection::vec(batch, 1..4), layout).prop_map(|(clients, batches, layout)| Case { clients, batches, layout, preload: 0 })
+}
+
+/// Long-lived connections: 65 300..65 535 messages in each direction first, then the ordinary batches (which then straddle
+/// the 16-bit mark of anything the transport counts per connection).
+fn long_strategy() -> impl Strategy<Value = Case> {
+    (case_strategy(), 65_300u32..65_536, 1u8..=2).prop_map(|(c, preload, clients)| Case { preload, clients, layout: (0, 0), ..c })
 }
 
 pub struct C17;
@@ -360,9 +424,12 @@ impl Prop for C17 {
         "C17"
     }
     fn units(&self, tier: Tier) -> Vec<Unit> {
-        vec![Unit::new("batches", if tier == Tier::Quick { 20_000 } else { 300_000 })]
+        vec![Unit::new("batches", if tier == Tier::Quick { 20_000 } else { 300_000 }), Unit::new("long_session", if tier == Tier::Quick { 16 } else { 160 })]
     }
     fn run_unit(&self, unit: &Unit, cases: u32, seed: u64, stats: &mut Stats) -> Option<Failure> {
+        if unit.name == "long_session" {
+            return run_proptest(&unit.name, long_strategy(), cases, seed, 20, stats, |c| guarded("C17", || run(c)));
+        }
         run_proptest(&unit.name, case_strategy(), cases, seed, 300, stats, |c| guarded("C17", || run(c)))
     }
     fn replay(&self, _unit: &str, case: &Value) -> Outcome {
@@ -373,7 +440,7 @@ impl Prop for C17 {
     }
     fn rule(&self) -> String {
         "case = 1..3 connected clients and 1..3 batches (server -> all clients by broadcast, or one client -> server), each 1..47 messages of 0..1200 payload bytes on 3 channels (2 ordered, 1 unordered) in one direction, with 0..3 further (unused) server and client events registered in front so that the directions have different channel counts and ids, queued in ONE sender frame or spread over 2..4 sender frames while the receiver is stalled, so they pile \
-         up between two receiver frames; real loopback TCP sockets of the example backend, no conditioner; carried by independent events (seq, payload). oracle: per channel \
+         up between two receiver frames; real loopback TCP sockets of the example backend, no conditioner; carried by independent events (seq, payload); unit long_session: the same after 65 300..65 535 messages in each direction on the same connections. oracle: per channel \
          the received (seq, payload) sequence equals the sent one (order, multiplicity, bytes), judged on the concatenated arrival sequence; only a message still missing 2 s \
          after sending counts as lost. non-trivial = >= 8 messages were handed to the receiver's game logic within one frame (measured on arrival)"
             .into()
